@@ -96,6 +96,9 @@ func (f *Fam) Exec(op string) (obs string, fails []common.Failure) {
 		after := f.app.Snap()
 		obs = r + " | " + after.String()
 		f.checkTx(before, after, r, bz, msg, t, fail)
+	case "mon.export":
+		f.monExport(fail)
+		return "done", fails
 	default:
 		return "bad-op", nil
 	}
@@ -708,6 +711,32 @@ func (f *Fam) checkSlashing(before, after *Snapshot, w []string, fail func(strin
 				if expect {
 					f.extra["c08:punishments-expected"]++
 				}
+				// every vote is recorded: unless the punishment reset the window, the offset advances by one, the slot of
+				// this vote holds its flag, the counter follows, and no other slot changes
+				if sa, okA := after.Sign[a]; okA && !observed {
+					f.extra["c08:window-steps-checked"]++
+					if exists && vb.Jailed {
+						f.extra["c08:window-steps-of-jailed"]++
+					}
+					bad := ""
+					if sa.Offset != si.Offset+1 {
+						bad = fmt.Sprintf("offset %d -> %d, expected %d", si.Offset, sa.Offset, si.Offset+1)
+					} else if sa.Missed != cnt {
+						bad = fmt.Sprintf("counter %d -> %d, expected %d", si.Missed, sa.Missed, cnt)
+					} else if after.Missed[a][idx] != missedNow {
+						bad = fmt.Sprintf("slot %d holds %v after a vote with missed=%v", idx, after.Missed[a][idx], missedNow)
+					} else {
+						for i := int64(0); i < W; i++ {
+							if i != idx && after.Missed[a][i] != before.Missed[a][i] {
+								bad = fmt.Sprintf("slot %d changed (%v -> %v) by a vote for slot %d", i, before.Missed[a][i], after.Missed[a][i], idx)
+								break
+							}
+						}
+					}
+					if bad != "" {
+						fail("window-step", "C08:vote-not-recorded", fmt.Sprintf("BeginBlock %d: vote of %s (missed=%v, jailed=%v): %s", f.height, a, missedNow, exists && vb.Jailed, bad))
+					}
+				}
 				if expect != observed {
 					fail("punish-iff", "C08:punish-iff", fmt.Sprintf("BeginBlock %d: %s (status %d) window count %d, allowance %d, start %d, window %d: punishment expected=%v, happened=%v",
 						f.height, a, vb.Status, cnt, maxMissed, si.Start, W, expect, observed))
@@ -1039,3 +1068,6 @@ func (f *Fam) checkParams(before, after *Snapshot, w []string, obs string, fail 
 }
 
 var _ = rand.Int
+
+// SnapForDebug: the decoded state of the primary instance (development aid)
+func (f *Fam) SnapForDebug() *Snapshot { return f.app.Snap() }
